@@ -61,6 +61,11 @@ MUTANTS = [
     ('greedyrange-swallows-explicit', 'C13', CORE, "        except StopFieldError:\n            pass\n        except ExplicitError:\n            raise\n        except Exception:\n            if fallback is None:", "        except StopFieldError:\n            pass\n        except Exception:\n            if fallback is None:"),
     ('peek-swallows-explicit', 'C13', CORE, "            return self.subcon._parsereport(stream, context, path)\n        except ExplicitError:\n            raise\n        except ConstructError:", "            return self.subcon._parsereport(stream, context, path)\n        except ConstructError:"),
     ('select-build-swallows-explicit', 'C13', CORE, "                data = sc.build(obj, **context)\n            except ExplicitError:\n                raise\n            except Exception:", "                data = sc.build(obj, **context)\n            except Exception:"),
+    ('validator-inverted', 'C13', CORE, "        if not self._validate(obj, context, path):\n            raise ValidationError", "        if self._validate(obj, context, path):\n            raise ValidationError"),
+    ('check-build-skipped', 'C13', CORE, "        passed = evaluate(self.func, context)\n        if not passed:\n            raise CheckError(\"check failed during building\", path=path)", "        passed = True\n        if not passed:\n            raise CheckError(\"check failed during building\", path=path)"),
+    ('enum-encode-passes-unknown', 'C13', CORE, "            return self.encmapping[obj]\n        except KeyError:\n            raise MappingError(\"building failed, no mapping for %r\" % (obj,), path=path)", "            return self.encmapping.get(obj, obj)\n        except KeyError:\n            raise MappingError(\"building failed, no mapping for %r\" % (obj,), path=path)"),
+    ('enum-decode-clamps', 'C13', CORE, "            return EnumInteger(obj)", "            return EnumInteger(obj & 0xffffffff)"),
+    ('const-parse-noteq', 'C13', CORE, "        if not obj == self.value:\n            raise ConstError(f\"parsing expected", "        if obj == self.value and False:\n            raise ConstError(f\"parsing expected"),
     ('sbib-order', 'C10', BIN, "for i in reversed(range(0,len(data),8)))", "for i in range(0,len(data),8))"),
     ('b2b-mod', 'C10', BIN, "if len(data) % 8 != 0:\n        raise ValueError(f\"data length {len(data)} must be", "if len(data) % 4 != 0:\n        raise ValueError(f\"data length {len(data)} must be"),
 ]
